@@ -29,10 +29,9 @@ NONE = '<none>'
 # which the check reports as a violation (clause no_termination) - the check itself always terminates.
 # Histories that each stay below the budget but get slower and slower (state carried from history to history inside the
 # library) are bounded by a CPU budget per task (one TLC part / one batch of recorded histories): TASK_CPU, set by c10.run.
-HIST_CPU = float(os.environ.get('C10_HIST_CPU', '10'))       # seconds of CPU per history (ordinary histories need < 0.5)
+HIST_CPU = float(os.environ.get('C10_HIST_CPU', '5'))        # seconds of CPU per history (ordinary histories need < 0.5)
 TASK_CPU = float(os.environ.get('C10_TASK_CPU', '600'))      # seconds of CPU for the real-code part of one task
-MEM_EXTRA = int(os.environ.get('C10_MEM_MB', '1536')) << 20  # address space the histories may add to a process (since its first history)
-MEM_MIN = 512 << 20     # ... but every history may add at least this much to what the process holds when it starts
+MEM_EXTRA = int(os.environ.get('C10_MEM_MB', '1536')) << 20  # address space the histories of a task may add to the process
 POISON_AFTER = 2        # after that many histories without end in one worker process, it executes no further real code
 
 
@@ -57,14 +56,13 @@ class Budget(object):
     poisoned = 0          # histories of this process that did not end
     task_spent = 0.0      # CPU seconds the histories of the current task have used
     task_reported = False
-    base = None           # address space of the process when its first history started
+    base = None           # address space of the process when the histories of the current task started
 
     def __enter__(self):
         self.old = resource.getrlimit(resource.RLIMIT_AS)
-        vm = _vm_bytes()
         if Budget.base is None:
-            Budget.base = vm
-        lim = max(Budget.base + MEM_EXTRA, vm + MEM_MIN)
+            Budget.base = _vm_bytes()
+        lim = Budget.base + MEM_EXTRA
         if self.old[1] != resource.RLIM_INFINITY:
             lim = min(lim, self.old[1])
         try:
@@ -92,8 +90,10 @@ class Budget(object):
 
 
 def start_task():
+    """to be called when the real-code part of a task begins (after the task's inputs have been loaded)"""
     Budget.task_spent = 0.0
     Budget.task_reported = False
+    Budget.base = _vm_bytes()
 
 
 def task_over():
